@@ -1,6 +1,6 @@
 import Driver.State
 import Driver.OpsCore
-import TakVerif.Generated.FuncsMoveGen
+import TakVerif.Generated.FuncsProve
 namespace Driver
 open Tak Codec
 
@@ -83,6 +83,29 @@ def handleFnGen2 : Handler := fun st op args =>
         | none => "panic"
         | some ms => if ms.isEmpty then "-" else " ".intercalate (ms.toList.map genMoveStr))
     | none => none
+  | "fn.xform", [n, k, x, y, t, sl] =>
+    match n.toInt?, k.toNat?, parseGenMove s!"{x},{y},{t},{sl}" with
+    | some n, some k, some m =>
+      if h : k < 8 then
+        some (st, match Gen.transformMove (Gen.symmetries n ⟨k, h⟩) m with
+          | none => "panic"
+          | some r => genMoveStr r)
+      else some (st, "panic")
+    | _, _, _ => none
+  | "fn.termbounds", [att, ply, res] =>
+    match att.toInt?, ply.toInt?, res.toInt? with
+    | some att, some ply, some res =>
+      some (st, match Gen.terminalBounds (BitVec.ofInt 8 att) ply (BitVec.ofInt 8 res) with
+        | none => "panic"
+        | some b => s!"{b.phi.toNat} {b.delta.toNat}")
+    | _, _, _ => none
+  | "fn.nodeflags", [f, phi, delta] =>
+    match f.toInt?, phi.toNat?, delta.toNat? with
+    | some f, some phi, some delta =>
+      let ph := BitVec.ofNat 32 phi
+      let de := BitVec.ofNat 32 delta
+      some (st, s!"{b01 (Gen.nodeExpanded f)} {b01 (Gen.nodeAndNode f)} {(Gen.nodeProof de f ph).toNat} {(Gen.nodeDisproof de f ph).toNat}")
+    | _, _, _ => none
   | _, _ => none
 
 end Driver
